@@ -3,7 +3,6 @@ package main
 import (
 	"encoding/json"
 	"fmt"
-	"reflect"
 
 	"evylang.dev/evy/pkg/evaluator"
 	"evylang.dev/evy/pkg/parser"
@@ -65,7 +64,7 @@ func stageDeterminism(raw json.RawMessage) Result {
 			return Result{OK: false, Obs: obs, Diff: fmt.Sprintf("repetition %d: parse errors differ:\n%s\n--- vs ---\n%s", i+1, first.ParseErr, o.ParseErr)}
 		case o.Formatted != first.Formatted:
 			return Result{OK: false, Obs: obs, Diff: fmt.Sprintf("repetition %d: formatted text differs", i+1)}
-		case !reflect.DeepEqual(o.Effects, first.Effects):
+		case effectString(o.Effects) != effectString(first.Effects): // as text: a NaN argument is not equal to itself
 			return Result{OK: false, Obs: obs, Diff: fmt.Sprintf("repetition %d: platform calls differ: %s vs %s", i+1, effectString(first.Effects), effectString(o.Effects))}
 		case o.Result != first.Result || o.RunErr != first.RunErr:
 			return Result{OK: false, Obs: obs, Diff: fmt.Sprintf("repetition %d: result differs: %s %q vs %s %q", i+1, first.Result, first.RunErr, o.Result, o.RunErr)}
